@@ -41,8 +41,7 @@ Qed.
 (* ------------------------------------------------------------------ side conditions, unfolded *)
 
 Lemma vb_sideb_parts t : vb_sideb t = true ->
-  ct_rootb t = true /\ vb_hist_parentb t = true /\ vb_default_properb t = true /\ vb_initial_properb t = true /\
-  vb_hist_disjointb t = true.
+  ct_rootb t = true /\ vb_hist_parentb t = true /\ vb_initial_properb t = true /\ vb_hist_disjointb t = true.
 Proof. unfold vb_sideb. intros H. repeat (apply andb_true_iff in H as [H ?]). repeat split; assumption. Qed.
 
 Lemma vb_docb_parts t : vb_docb t = true -> t_kind t = KScxml /\ forall w, In w (tbelow t) -> t_kind w <> KScxml.
